@@ -47,6 +47,8 @@ def _subvolume(case, j, k, d):
 
 
 def replay(case) -> dict:
+    if "grid" in case:
+        return replay_grid(case)
     try:
         return _replay(case)
     except engine.ApiRaised as e:
@@ -174,6 +176,98 @@ def _replay(case) -> dict:
     return dict(failures=failures)
 
 
+# ------------------------------------------------------------------ spec/RotGrid.tla: what a (max, step) request denotes
+def _req_arg(case):
+    r = case["r"]
+    if case["form"] == "scalar":
+        return (r[0][0], r[0][1])
+    return tuple((a, b) for a, b in r)
+
+
+def _compose(t):
+    """Materialise the specification's Rz(az) o Ry(ay) o Rx(ax): elementary rotation vectors angle * e_axis in z,y,x components."""
+    from scipy.spatial.transform import Rotation
+
+    z, y, x = (float(np.deg2rad(a)) for a in t)
+    return Rotation.from_rotvec([z, 0, 0]) * Rotation.from_rotvec([0, y, 0]) * Rotation.from_rotvec([0, 0, x])
+
+
+GRID_SHIFTS = ([0, 0, 0], [1, -1, 0], [-1, 0, 2], [2, 2, -2], [0, -2, 1])
+
+
+def replay_grid(case) -> dict:
+    from scipy.spatial.transform import Rotation
+
+    req = _req_arg(case)
+    grid = case["grid"]
+    n = case["count"]
+    mats = case.get("mats") or []
+    desc = dict(family="rotgrid", form=case["form"], r=case["r"], count=n)
+    fails = []
+    if mats:        # the harness's materialisation of an angle triple must agree with the specification's exact matrices
+        for i, t in enumerate(grid):
+            if geodesic_deg(_compose(t), Rotation.from_matrix(np.array(mats[i], dtype=float))) > 1e-6:
+                return dict(machinery_error=f"harness materialisation of {t} differs from RotGrid.RotOf")
+    tmpl = asym_template(0)
+    names = ("ZNCC", "NCC", "PCC")
+    which = (n + sum(a + b for a, b in case["r"])) % 3
+    cls = _model_cls(names[which])
+    for route in ("ctor", "with_params", "ctor_list"):
+        try:
+            if route == "ctor":
+                quats = engine.api(lambda: cls(tmpl, rotations=req).quaternions)
+            elif route == "with_params":
+                quats = engine.api(lambda: cls.with_params(rotations=req).quaternions)
+            else:   # the same request as lists (a user reading it from a JSON / YAML file)
+                quats = engine.api(lambda: cls(tmpl, rotations=[list(p) for p in req] if case["form"] == "triple" else list(req)).quaternions)
+        except engine.ApiRaised as e:
+            fails.append(dict(desc, clause="Raised", route=route, error=e.kind, message=e.msg[:200]))
+            continue
+        quats = np.asarray(quats)
+        if quats.ndim != 2 or quats.shape[1] != 4 or quats.shape[0] != n:
+            fails.append(dict(desc, clause="GridCount", route=route, observed=list(quats.shape), expected=n))
+            continue
+        got = Rotation.from_quat(quats.astype(np.float64))
+        worst, at = 0.0, -1
+        for i, t in enumerate(grid):
+            a = geodesic_deg(got[i], _compose(t))
+            if a > worst:
+                worst, at = a, i
+        if worst > 0.05:
+            fails.append(dict(desc, clause="GridCandidate", route=route, index=at, angles=grid[at], off_by_deg=round(worst, 3)))
+        c = case["centre"] - 1
+        if got[c].magnitude() > 1e-3:
+            fails.append(dict(desc, clause="IdentityNotAtCentre", route=route))
+    # every candidate of a small quarter-turn grid, planted and searched for
+    plant = case.get("plant") or []
+    for k1, first in enumerate(plant, start=1):
+        M = np.array(mats[k1 - 1])
+        d = GRID_SHIFTS[(k1 + n) % len(GRID_SHIFTS)]
+        sub = apply_rot24(tmpl, M, d)
+        try:
+            model = cls(tmpl, rotations=req)
+            res = engine.api(model.align, sub, (MAX_SHIFT,) * 3)
+        except engine.ApiRaised as e:
+            fails.append(dict(desc, clause="Raised", route="align", k=k1 - 1, error=e.kind, message=e.msg[:200]))
+            continue
+        ang = geodesic_deg(Rotation.from_quat(res.quat), Rotation.from_matrix(M.astype(float)))
+        if ang > 0.05:
+            fails.append(dict(desc, clause="PlantedCandidateNotReported", k=k1 - 1, first_same=first - 1, label=int(res.label), off_by_deg=round(ang, 3)))
+        elif float(np.max(np.abs(np.asarray(res.shift, dtype=float) - np.asarray(d, dtype=float)))) > 0.5:
+            fails.append(dict(desc, clause="Shift", k=k1 - 1, observed=[round(float(x), 3) for x in res.shift], expected=d))
+        elif int(res.label) != k1 - 1 and not np.array_equal(np.array(mats[int(res.label)]), M):
+            fails.append(dict(desc, clause="LabelNamesAnotherRotation", k=k1 - 1, label=int(res.label)))
+    return dict(failures=fails, classes={"grid_requests": 1, "grid_planted": len(plant)})
+
+
+def _gkey(case):
+    return ("rotgrid", case["form"], json.dumps(case["r"]))
+
+
+def _gstratum(case):
+    return (case["form"], case["quarter"], min(case["count"], 30), len(case.get("plant") or []) > 0)
+
+
 def _key(case):
     c = case["cfg"]
     return (c["T"], c["K"], c["j"], c["k"], c["d"], c["driver"], c["model"], c["rs"])
@@ -207,6 +301,18 @@ def run(rep: engine.Report, tier: str, seed: int):
     )
     results = engine.parallel_replay("harness.props.c06", "replay", sel)
     engine.collect(rep, sel, results, key=_key)
+    # spec/RotGrid.tla: the candidate list a (max, step) request denotes
+    rg = rep.add_tlc(engine.tlc("MC_RotGrid", "MC_RotGrid", workers=1))
+    gcases = rg.emitted
+    if len(gcases) < 700:
+        raise engine.MachineryError(f"RotGrid emitted {len(gcases)} requests")
+    gsel = engine.stratified_sample(gcases, _gstratum, 120 if tier == "quick" else len(gcases), seed)
+    rep.rule += (f"; RotGrid: {len(gcases)} range requests (9 per-axis (max, step) pairs, triples and the scalar form) with the angle grid "
+                 f"TLC computed, {len(gsel)} replayed on Model(...).quaternions / with_params / list form, every candidate of every quarter-turn grid "
+                 "of <= 27 candidates planted and searched for")
+    rep.exhaustive = rep.exhaustive and len(gsel) == len(gcases)
+    gres = engine.parallel_replay("harness.props.c06", "replay", gsel)
+    engine.collect(rep, gsel, gres, key=_gkey)
     rep.traces_validated = rep.evaluations
     rep.assumptions += [
         "asymmetric integer templates (5^3 core in a 9^3 box) have a unique best candidate",
@@ -231,6 +337,17 @@ def selftest() -> int:
     bad2 = dict(bad)
     r = replay_with_expect(case, bad["cfg"]["j"])
     ok = (not good["failures"]) and bool(r["failures"])
+    # RotGrid binding: an expectation with y and x exchanged, and one with a candidate missing, must both be rejected
+    rg = engine.tlc("MC_RotGrid", "MC_RotGrid", workers=1)
+    g = next(c for c in rg.emitted if c["form"] == "triple" and c["r"] == [[90, 90], [0, 0], [180, 90]])
+    ok = ok and not replay_grid(g)["failures"]
+    swapped = json.loads(json.dumps(g))
+    swapped["grid"] = [[t[0], t[2], t[1]] for t in g["grid"]]
+    swapped["mats"], swapped["plant"] = [], []
+    short = json.loads(json.dumps(g))
+    short["grid"], short["count"], short["mats"], short["plant"] = g["grid"][:-1], g["count"] - 1, [], []
+    ok = ok and any(f["clause"] == "GridCandidate" for f in replay_grid(swapped)["failures"])
+    ok = ok and any(f["clause"] == "GridCount" for f in replay_grid(short)["failures"])
     print("selftest C06:", "ok" if ok else "FAILED")
     return 0 if ok else 2
 
